@@ -277,7 +277,7 @@ def run_grammar(spec, prop, R, tier, batch, stats):
         except Exception as e:
             batch.trace(spec["id"], [{"e": "extract_failed", "exc": exc_name(e)}],
                         {"k": "syn", "g": b.oracle(), "impl0": {"expd": False},
-                         "annot": "strings" if spec.get("postponed") else "objects"})
+                         "annot": "strings" if spec.get("postponed") else "objects", "expd": False})
             return
         quick = tier == "quick"
         mind = ctx.mind
@@ -321,7 +321,7 @@ def run_grammar(spec, prop, R, tier, batch, stats):
             if prop == "C02":
                 validate_events(ctx, R)
         cfg = {"k": "syn", "g": ctx.decl, "impl0": ctx.impl0, "feats": spec.get("feats", []),
-               "annot": "strings" if spec.get("postponed") else "objects"}
+               "annot": "strings" if spec.get("postponed") else "objects", "expd": False}
         batch.trace(spec["id"], ctx.events, cfg)
         stats["events"] += len(ctx.events)
         if prop == "C11" and "source" not in spec:
@@ -334,7 +334,8 @@ def run_grammar(spec, prop, R, tier, batch, stats):
             if cx.mind < 1000:
                 workload(cx, R, cx.mind + 2, ["grow", "pt"], ["tree", "ge", "dsge"], 2 if quick else 4, 2 if quick else 4)
                 batch.trace(spec["id"] + "/expansion", cx.events,
-                            {"k": "syn", "g": cx.decl, "impl0": cx.impl0, "feats": spec.get("feats", []), "annot": "objects"})
+                            {"k": "syn", "g": cx.decl, "impl0": cx.impl0, "feats": spec.get("feats", []), "annot": "objects",
+                             "expd": True})     # the mode that was REQUESTED (the grammar's own flag is the implementation's word)
                 stats["events"] += len(cx.events)
     finally:
         b.dispose()
@@ -373,7 +374,7 @@ def redeclare_scenario(spec, prop, R, batch, stats):
         ctx = Ctx(b, prop, meta=(prop == "C11"))                                   # extract again: new declaration
         workload(ctx, R, ctx.mind + 1, ["grow", "pt"], ["tree", "ge", "sge", "dsge"], 2, 2)
         batch.trace("redeclared/" + spec["id"], ctx.events,
-                    {"k": "syn", "g": ctx.decl, "impl0": ctx.impl0, "feats": spec.get("feats", []), "annot": "objects"})
+                    {"k": "syn", "g": ctx.decl, "impl0": ctx.impl0, "feats": spec.get("feats", []), "annot": "objects", "expd": False})
         stats["events"] += len(ctx.events)
     finally:
         b.dispose()
